@@ -1,1 +1,113 @@
-From DV Require Import Prelude.Base Model.Node.
+(* C06 — capabilities exchange gates all traffic and yields the specified outcome
+   Statements copied from the proof files; each is closed by `exact`. *)
+From DV Require Prelude.Base Model.Ids Proofs.IdsP Model.Node Proofs.NodeA.
+From Coq Require String List Lia Bool Arith ZArith.
+
+Module FromNodeA.
+Import DV.Prelude.Base DV.Model.Node DV.Proofs.NodeA.
+Import Coq.Strings.String.
+Open Scope string_scope.
+Open Scope list_scope.
+Open Scope Z_scope.
+
+(* C06: a CONNECTED connection drops every message that is not the expected CER / CEA *)
+Theorem C06_gate_connected n cid c m :
+  get_conn n cid = Some c -> c_state c = SConnected ->
+  (m_cmd m <> CE \/ (c_recv c = true /\ m_req m = false) \/ (c_recv c = false /\ m_req m = true)) ->
+  dispatch n cid m = (n, []).
+Proof. exact (@NodeA.C06_gate_connected n cid c m). Qed.
+
+(* C06: a CLOSING or CLOSED connection drops every message *)
+Theorem C06_gate_closing n cid c m :
+  get_conn n cid = Some c -> (c_state c = SClosing \/ c_state c = SClosed) ->
+  dispatch n cid m = (n, []).
+Proof. exact (@NodeA.C06_gate_closing n cid c m). Qed.
+
+(* C06: a CER of a configured peer sharing an application is answered 2001 and the connection becomes READY *)
+Theorem C06_cer_known n cid c m h p :
+  get_conn n cid = Some c -> m_origin m = Present h -> get_peer n h = Some p ->
+  (inter_z (node_auth n) (m_auth m) <> [] \/ inter_z (node_acct n) (m_acct m) <> [] \/
+   mem_z APP_RELAY (m_auth m) || mem_z APP_RELAY (m_acct m) = true) ->
+  snd (recv_cer n cid m) = [OQueue cid (answer_of m (Some 2001) [])] /\
+  exists c', get_conn (fst (recv_cer n cid m)) cid = Some c' /\ c_state c' = SReady /\ c_host c' = h.
+Proof. exact (@NodeA.C06_cer_known n cid c m h p). Qed.
+
+(* C06: a CER of an unknown peer is answered 3010 and the connection is CLOSING *)
+Theorem C06_cer_unknown n cid c m h :
+  get_conn n cid = Some c -> m_origin m = Present h -> get_peer n h = None ->
+  snd (recv_cer n cid m) = [OQueue cid (answer_of m (Some 3010) [])] /\
+  exists c', get_conn (fst (recv_cer n cid m)) cid = Some c' /\ c_state c' = SClosing.
+Proof. exact (@NodeA.C06_cer_unknown n cid c m h). Qed.
+
+(* C06: a CER of a configured peer with no common application is answered 5010; the state is unchanged *)
+Theorem C06_cer_no_common n cid c m h p :
+  get_conn n cid = Some c -> m_origin m = Present h -> get_peer n h = Some p ->
+  inter_z (node_auth n) (m_auth m) = [] -> inter_z (node_acct n) (m_acct m) = [] ->
+  mem_z APP_RELAY (m_auth m) || mem_z APP_RELAY (m_acct m) = false ->
+  snd (recv_cer n cid m) = [OQueue cid (answer_of m (Some 5010) [])] /\
+  exists c', get_conn (fst (recv_cer n cid m)) cid = Some c' /\ c_state c' = c_state c.
+Proof. exact (@NodeA.C06_cer_no_common n cid c m h p). Qed.
+
+(* C06: the I/O thread writes the buffered answer of a CLOSING connection, then closes it (CLEAN) and removes it *)
+Theorem C06_unknown_then_closed n cid c :
+  get_conn n cid = Some c -> c_state c = SClosing -> c_stalled c = false -> c_sock_open c = true ->
+  c_out c <> [] ->
+  (exists pre post, snd (flush n) = pre ++ List.map (OSend cid) (c_out c) ++ [OClose cid R_CLEAN] ++ post) /\
+  get_conn (fst (flush n)) cid = None.
+Proof. exact (@NodeA.C06_unknown_then_closed n cid c). Qed.
+
+(* C06: the first thing queued on an outbound connection is a CER; the connection is CONNECTED and outbound *)
+Theorem C06_outbound_first_is_cer n name h0 p :
+  get_peer n name = Some p -> p_conn p = None -> p_has_addr p = true ->
+  get_conn n (n_next_cid n) = None ->
+  exists cer c',
+    snd (connect_to_peer n name h0 DialOk) = [ODial name; OQueue (n_next_cid n) cer] /\
+    o_cmd cer = CE /\ o_req cer = true /\
+    get_conn (fst (connect_to_peer n name h0 DialOk)) (n_next_cid n) = Some c' /\
+    c_state c' = SConnected /\ c_recv c' = false.
+Proof. exact (@NodeA.C06_outbound_first_is_cer n name h0 p). Qed.
+
+(* C06: a CEA whose Result-Code is not 2001 closes the connection (CER_REJECTED) *)
+Theorem C06_cea_rejected n cid m :
+  m_result m <> Present 2001 ->
+  recv_cea n cid m = close_conn n cid R_CER_REJECTED /\
+  (forall c, get_conn n cid = Some c -> snd (recv_cea n cid m) = [OClose cid R_CER_REJECTED]).
+Proof. exact (@NodeA.C06_cea_rejected n cid m). Qed.
+
+(* C06: a CONNECTED connection whose CER / CEA does not arrive within the effective timeout is closed (FAILED_CE) *)
+Theorem C06_timeout n cid c :
+  n_stopping n = false -> get_conn n cid = Some c -> c_state c = SConnected ->
+  let t := if c_recv c then eff_cer n c else eff_cea n c in
+  (t < n_now n - c_last_read c -> check_timers n cid = close_conn n cid R_FAILED_CE) /\
+  (n_now n - c_last_read c <= t -> check_timers n cid = (n, [])).
+Proof. exact (@NodeA.C06_timeout n cid c). Qed.
+
+(* freshness of connection numbers is an invariant of step (it holds for a node without connections) *)
+Theorem conns_fresh_step n ds e : conns_fresh n -> conns_fresh (fst (step n ds e)).
+Proof. exact (@NodeA.conns_fresh_step n ds e). Qed.
+
+(* C06: a connection that was not ready and is ready after a step: the step was a network read on that
+   connection whose frames contain a CER of a configured peer or a CEA 2001; if the connection was CONNECTED
+   the message has the direction of the connection (CER on an inbound, CEA on an outbound connection) *)
+Theorem C06_ready_only_by_ce n ds e cid c c' :
+  (cid < n_next_cid n)%nat ->
+  get_conn n cid = Some c -> is_ready_state (c_state c) = false ->
+  get_conn (fst (step n ds e)) cid = Some c' -> is_ready_state (c_state c') = true ->
+  exists ms, e = ERecv cid ms /\
+    (exists m, List.In m ms /\ (is_good_cer n m \/ is_good_cea m)) /\
+    (c_state c = SConnected ->
+     exists m, List.In m ms /\ if c_recv c then is_good_cer n m else is_good_cea m).
+Proof. exact (@NodeA.C06_ready_only_by_ce n ds e cid c c'). Qed.
+End FromNodeA.
+
+Print Assumptions FromNodeA.C06_gate_connected.
+Print Assumptions FromNodeA.C06_gate_closing.
+Print Assumptions FromNodeA.C06_cer_known.
+Print Assumptions FromNodeA.C06_cer_unknown.
+Print Assumptions FromNodeA.C06_cer_no_common.
+Print Assumptions FromNodeA.C06_unknown_then_closed.
+Print Assumptions FromNodeA.C06_outbound_first_is_cer.
+Print Assumptions FromNodeA.C06_cea_rejected.
+Print Assumptions FromNodeA.C06_timeout.
+Print Assumptions FromNodeA.conns_fresh_step.
+Print Assumptions FromNodeA.C06_ready_only_by_ce.
